@@ -30,7 +30,9 @@ PROP = dict(
               "index 65536 for the big sizes) x real/complex x lengths 1..32,100,1000,70000,200000 x 3 kinds of operand storage (exact fit; "
               "spare capacity with stale 1e6 values behind the end = arr(std::move(vector)) of a shrunk vector; result of a mask selection from "
               "a bigger array) with norm p in {default,1,2,3,4,8}; dot sweep: every n in 0..64, 65, 127, 129, 1001, 65537 x 2 letters x 3x3 storage "
-              "kinds of the two operands x real/complex; element-wise array checks rotate the three storage kinds with the array length; upsample/downsample len<=12 x factor<=12 x phase<min; "
+              "kinds of the two operands x real/complex; aliased calls with ONE object as both operands: dot(x,x) (real and complex, the same n "
+              "sweep x 2 letters x 3 storage kinds: value as for two different arrays and equal to the call with an equal-valued copy), "
+              "power(x,x) and complex(x,x) for real arrays; element-wise array checks rotate the three storage kinds with the array length; upsample/downsample len<=12 x factor<=12 x phase<min; "
               "linspace n=1..100 x 5 endpoint pairs; integer arange every (start,stop,step) in [-12,12]^3 and arange(stop) stop in [-12,12]; "
               "fractional arange 4 starts x 6 dyadic steps x count 0..20 (3 template instantiations); long fractional arange starts "
               "{0,-5,2.5,1e6} x non-dyadic steps {0.1,0.01,0.6,1/3,-0.7,1e-3} x counts {100,1000,10000,100000} and the decimal grid starts "
